@@ -21,7 +21,7 @@ def decl_layers_units(enum, tier, prefix, n, body):
 
 def gen_c19(tier, enum):
     n = 24 if tier == "quick" else 32
-    e = enum(MOD + "/layers")
+    e = enum(MOD + "/layers")["types"]
 
     def body(x, n):
         T = x["Name"]
@@ -38,10 +38,93 @@ def gen_c19(tier, enum):
     return [("layers", "c19gen.go", decl_layers_units(e, tier, "C19", n, body))]
 
 
+def gen_c01(tier, enum):
+    e = enum(MOD + "/layers")
+    n = 12 if tier == "quick" else 20
+    out = ["package layers", "", 'import "github.com/gopacket/gopacket"', ""]
+    out.append("""
+func c01Packet(first gopacket.LayerType, n int) {
+	in := verifBytes("in", n)
+	ln := verifInt("n", 0, n)
+	var opts gopacket.DecodeOptions
+	switch verifChoose(4) {
+	case 1:
+		opts = gopacket.DecodeOptions{Lazy: true}
+	case 2:
+		opts = gopacket.DecodeOptions{NoCopy: true, DecodeStreamsAsDatagrams: true}
+	case 3:
+		opts = gopacket.DecodeOptions{Lazy: true, Pool: true, DecodeStreamsAsDatagrams: true}
+	}
+	p := gopacket.NewPacket(in[:ln], first, opts)
+	ls := p.Layers()
+	el := p.ErrorLayer()
+	nfail := 0
+	for _, l := range ls {
+		if _, ok := l.(*gopacket.DecodeFailure); ok {
+			nfail++
+		}
+		_ = l.LayerType()
+		_ = l.LayerContents()
+		_ = l.LayerPayload()
+	}
+	if el != nil {
+		verifAssert(len(ls) > 0 && ls[len(ls)-1] == gopacket.Layer(el), "error layer is the last layer")
+		verifAssert(nfail <= 1, "no other layer is a decode failure")
+	} else {
+		verifAssert(nfail == 0, "no decode failure layer without an error layer")
+	}
+	if l := p.LinkLayer(); l != nil {
+		_ = l.LinkFlow()
+	}
+	if l := p.NetworkLayer(); l != nil {
+		_ = l.NetworkFlow()
+	}
+	if l := p.TransportLayer(); l != nil {
+		_ = l.TransportFlow()
+	}
+	if l := p.ApplicationLayer(); l != nil {
+		_ = l.Payload()
+	}
+	_, _ = p.VerifyChecksums()
+	_ = p.Layer(first)
+	_ = p.LayerClass(LayerClassIPNetwork)
+	_ = p.Metadata().Truncated
+	verifReached("pkt")
+}
+""")
+    for lt in e["layertypes"]:
+        nn = C01_SIZES.get(lt, {}).get(tier, n)
+        out.append(f"func verif_C01_pkt_{lt[len('LayerType'):]}() {{ c01Packet({lt}, {nn}) }}")
+    return [("layers", "c01gen.go", "\n".join(out) + "\n")]
+
+
+C01_SIZES = {}
+
 # per-type input bound overrides (units whose path count explodes)
 C19_SIZES = {}
 
+def no_alloc(name, v):
+    return v["kind"] != "alloc"
+
+
 PROPS = {
+    "C01": {
+        "pkgs": [MOD, MOD + "/layers"],
+        "static": [("", "c01core.go")],
+        "generate": gen_c01,
+        "bounds": "builder protocol: chains of <= 2 (quick) / 3 (thorough) nondeterministic decoder stubs (layer kind, type, symbolic contents/payload split, truncation flag, ending in return nil / return err / panic / NextDecoder(next) / NextDecoder(nil)), input 1..3 symbolic bytes, options NoCopy x Pool x DecodeStreamsAsDatagrams x {eager, lazy}, accessor sequences of <= 2 calls before Layers()",
+        "outside": "inputs up to 64 KiB; fmt/reflect internals of String/Dump/LayerGoString",
+        "quick": {"timeout": 900, "units": "verif_C01_(core2|pkt_.*)", "params": "verif_C01_core.*:b0=0..14,opt=0..4", "unsupported_ok": True, "maxpaths": 600, "partial_ok_all": True, "timeout": 1200},
+        "thorough": {"timeout": 3000, "params": "verif_C01_core.*:b0=0..14,opt=0..4", "unsupported_ok": True, "maxpaths": 20000, "partial_ok_all": True},
+    },
+    "C03": {
+        "pkgs": [MOD],
+        "static": [("", "c01core.go"), ("", "c03.go")],
+        "bounds": "lazy vs eager on chains of <= 2 (quick) / 3 (thorough) nondeterministic decoder stubs (layer kind, symbolic type, symbolic contents/payload split, truncation, five endings), input 1..3 symbolic bytes, 5 option sets, accessor sequences of 1 (quick) / 2 (thorough) calls from {Layer(t), LayerClass(c), Link/Network/Transport/Application/ErrorLayer} followed by Layers(); compared: returned layer (type, contents, payload), layer list, truncation flag, data",
+        "outside": "String()/Dump() text (fmt/reflect not interpreted; they read only data, metadata and layers, which are compared); real decoders are compared in the layers harness of C05/C01; assumption checked by C01: decoders call NextDecoder in tail position after adding a layer",
+        "quick": {"timeout": 1200, "units": "verif_C03_core2", "params": "verif_C03_core.*:b0=0..14,opt=0..4"},
+        "thorough": {"timeout": 3000, "params": "verif_C03_core.*:b0=0..14,opt=0..4"},
+    },
     "C08": {
         "pkgs": [MOD],
         "static": [("", "c08.go")],
@@ -51,6 +134,15 @@ PROPS = {
         "outside": "data longer than the bound",
         "quick": {"qtimeout": 5000, "fbtimeout": 120000},
         "thorough": {"qtimeout": 5000, "fbtimeout": 300000},
+    },
+    "C14": {
+        "pkgs": [MOD + "/pcapgo"],
+        "static": [("pcapgo", "c14.go")],
+        "violation_filter": no_alloc,
+        "bounds": "pcap (micro and nano): 1..2 packets, data 0..3 symbolic bytes, Length = caplen + symbolic 16-bit excess, seconds any 32-bit value, nanoseconds 0..999999999, symbolic snap length >= 3 and link type; read back copying or zero-copy; crash points: every truncation offset of the produced file (enumerated)",
+        "outside": "libpcap (cgo) reading the same file is not encodable and not claimed; gzip",
+        "quick": {"timeout": 600},
+        "thorough": {"timeout": 3000},
     },
     "C15": {
         "pkgs": [MOD + "/pcapgo"],
@@ -68,6 +160,14 @@ PROPS = {
         "outside": "layer-to-flow correspondence is in the layers harness (C17 units in package layers)",
         "quick": {"timeout": 300},
         "thorough": {"timeout": 900},
+    },
+    "C10": {
+        "pkgs": [MOD + "/tcpassembly"],
+        "static": [("tcpassembly", "c10.go")],
+        "bounds": "Sequence lemma over all 2^64 pairs (distance < 2^30); histories: SYN + k <= 2 (quick) / 3 (thorough) segments with symbolic offset 0..7 and length 0..3 into an 11-byte symbolic stream, fully symbolic 32-bit ISN, optional FIN, optional FlushOlderThan after each segment and final FlushAll, optional per-connection page limit 1",
+        "outside": "longer histories, multi-page segments, both directions interleaved",
+        "quick": {"timeout": 900, "units": "verif_C10_(seq_lemma|hist2|hist2_flush)"},
+        "thorough": {"timeout": 3000},
     },
     "C13": {
         "pkgs": [MOD + "/ip4defrag", MOD + "/ip6defrag"],
